@@ -3,11 +3,22 @@ From LogV Require Import Base.Bytes Model.Retention Proofs.RetentionProofs.
 Open Scope Z_scope.
 
 (* for every directory population, file name, maximum age and clock: an entry survives iff it is
-   NOT (a regular file, named "<name>." + 14 digits, older than the cut-off) - both inclusions *)
+   NOT (a regular file, named "<name>." + 14 digits, older than the cut-off) - both inclusions.
+   must_delete also carries `representable age`: the age in hours must fit the time.Duration the code computes with
+   (|age| <= 2562047 h, about 292 years); beyond that nothing is deleted (c14_unrepresentable_age_deletes_nothing) *)
 Theorem c14_deletes_exactly : forall fn age now dir e,
   In e (clear_expired fn age now dir) <-> In e dir /\ ~ must_delete fn age now e.
 Proof. exact clear_expired_exact. Qed.
 Print Assumptions c14_deletes_exactly.
+
+Theorem c14_must_delete_for_representable_ages : forall fn age now e, representable age ->
+  (must_delete fn age now e <-> de_kind e = 0%N /\ own_file fn (de_name e) /\ expired age now e).
+Proof. exact must_delete_representable. Qed.
+Print Assumptions c14_must_delete_for_representable_ages.
+
+Theorem c14_unrepresentable_age_deletes_nothing : forall fn age now dir, max_age_fit < Z.abs age -> clear_expired fn age now dir = dir.
+Proof. exact unrepresentable_age_deletes_nothing. Qed.
+Print Assumptions c14_unrepresentable_age_deletes_nothing.
 
 Theorem c14_order_and_multiplicity_kept : forall fn age now dir,
   exists keep : dirent -> bool,
